@@ -249,5 +249,9 @@ def run(tier):
     R.assumptions += ['IEEE-754 binary64, round-to-nearest-even, no NaN / infinity inputs; divisors and dimensions sampled '
                       '(the expressions depend on them only through the constants the constructors compute)',
                       'WINDOWS transcribes the kernels\' documented magnitude windows (clause b)']
-    return R.finish('Exhaustive instantiation of the conversion-table constructors on their finite parameter domain: narrow-integer '
+    R.rules.append('evaluation (contract clause) = one input partition (sign x binade of the input, refined by bisection) of one '
+                   'conversion configuration decided by the affine enclosure; a reported violation is a single-input partition')
+    return R.finish('E6: the E4 expression of every output lane of the kernel selected by the constructor, analysed over the whole '
+                    'magnitude window by binade-partitioned affine enclosures (every input of the window is covered by a decided '
+                    'partition); plus exhaustive instantiation of the constructors on their parameter domain: narrow-integer '
                     'overflow before widening, kernel selection against documented windows, stored dimension.')
